@@ -173,6 +173,8 @@ class Request(HTTPConnection):
                 return json.loads(text)
             except json.JSONDecodeError as exc:
                 raise MalformedJSON(str(exc)) from None
+            except RecursionError:
+                raise MalformedJSON("JSON document is nested too deeply") from None
 
         raise UnsupportedMediaType("application/json")
 
